@@ -199,6 +199,24 @@ def gen_varsparse(rng, fmt, lib):
     sources.append({"ufo": 1, "location": {"Weight": 900}, "name": "m900"})
     ds = {"axes": [{"name": "Weight", "tag": "wght", "min": 100, "default": 100, "max": 900}],
           "ufos": [u0, u1], "sources": sources}
+    if stratum2 is None and rng.random() < 0.35:
+        # a second axis (default 100, not 0) with a third full master at its other end; the
+        # sparse sources spell their location WITHOUT it (a missing axis means its default)
+        g2 = copy.deepcopy(g0)
+        for g in g2:
+            g["width"] += rng.choice([-60, -20])
+            g["contours"] = _shift(g["contours"], rng, -35, 10)
+            for c_ in g["components"]:
+                c_["t"] = c_["t"][:4] + [c_["t"][4] + rng.randint(-30, 30), c_["t"][5]]
+        u2 = {"glyphs": g2, "kerning": [], "groups": {}, "lib": {},
+              "info": dict(info, styleName="C"), "features": "languagesystem DFLT dflt;\n"}
+        ds["axes"].append({"name": "Width", "tag": "wdth", "min": 50, "default": 100, "max": 100})
+        ds["ufos"].append(u2)
+        for s_ in sources:
+            if not s_.get("layerName"):
+                s_["location"]["Width"] = 100
+        sources.append({"ufo": 2, "location": {"Weight": 100, "Width": 50}, "name": "w50"})
+        stratum2 = "second_axis_omitted_by_sparse_sources"
     return {"stratum": "varsparse", "fmt": fmt, "lib": lib, "skip": sorted(skip),
             "delivery": "dslib", "decoy": [], "ds": ds,
             "sparse": {str(loc): [g["name"] for g in gl] for loc, gl in layers.items() if gl},
